@@ -349,3 +349,108 @@ func genRandom(w *lib.Writer, env *envT, r *lib.Rand, tier string) {
 		runCase(w, env, in{Ops: ops})
 	}
 }
+
+// ---------- hosts that open the libraries themselves, in any order ----------
+
+const (
+	idPkg    = 10
+	idString = 11
+	idTable  = 12
+)
+
+func iBase() IOp     { return IOp{Op: "openbase"} }
+func iPkg() IOp      { return IOp{Op: "openpackage"} }
+func iLib(n int) IOp { return IOp{Op: "openlib", N: n} }
+func iReg(n int, fs ...int) IOp {
+	if fs == nil {
+		fs = []int{}
+	}
+	return IOp{Op: "register", N: n, Fs: fs}
+}
+func iPre(n int, kind string, s []Action) IOp {
+	return IOp{Op: "preload", N: n, Loader: &Loader{Kind: kind, Script: s}}
+}
+
+func corpusInit(w *lib.Writer, env *envT) {
+	cs := []in{
+		// modules registered before OpenPackage must survive it (seeded regression C20-4)
+		{Init: []IOp{iReg(3, 1), iBase(), iPkg()}, Ops: []Op{hReq(3), hGetG(3), hGetL(3), hReq(idPkg), hGetG(idPkg)}},
+		{Init: []IOp{iLib(idString), iLib(idTable), iReg(0), iPkg(), iBase()},
+			Ops: []Op{hReq(idString), hGetG(idString), hReq(idTable), hGetG(idTable), hReq(0), hReq(idPkg), hGetL(idPkg)}},
+		{Init: []IOp{iPkg(), iBase(), iLib(idString), iReg(1, 0, 2), iPre(0, "go", sc(req(1), ret(eTab(0))))},
+			Ops: []Op{hReq(0), hReq(1), hReq(idString), hReq(idPkg), hGetG(1)}},
+		// PreloadModule before the package library is open is an error; afterwards it is found
+		{Init: []IOp{iBase(), iPre(0, "go", sc(ret(eStr(0)))), iPkg(), iPre(1, "go", sc(ret(eStr(1))))},
+			Ops: []Op{hReq(0), hReq(1)}},
+		{Init: []IOp{iReg(idString, 1), iLib(idString), iReg(idPkg, 2), iPkg(), iBase(), iReg(idPkg, 3)},
+			Ops: []Op{hReq(idString), hReq(idPkg), hReg(idString, 0), hReq(idString)}},
+	}
+	for _, c := range cs {
+		runCase(w, env, c)
+	}
+}
+
+func genInit(w *lib.Writer, env *envT, r *lib.Rand, tier string) {
+	n := 300
+	if tier == "thorough" {
+		n = 6000
+	}
+	libs := []int{idPkg, idString, idTable}
+	for k := 0; k < n; k++ {
+		cr := r.Fork()
+		init := []IOp{iBase(), iPkg()}
+		registered := []int{idPkg}
+		if cr.Chance(70) {
+			init = append(init, iLib(idString))
+			registered = append(registered, idString)
+		}
+		if cr.Chance(50) {
+			init = append(init, iLib(idTable))
+			registered = append(registered, idTable)
+		}
+		for j := cr.Range(1, 3); j > 0; j-- {
+			m := cr.Intn(4)
+			if cr.Chance(15) {
+				m = libs[cr.Intn(3)]
+			}
+			fs := []int{}
+			for f := 0; f < 4; f++ {
+				if cr.Chance(30) {
+					fs = append(fs, f)
+				}
+			}
+			init = append(init, iReg(m, fs...))
+			registered = append(registered, m)
+		}
+		for j := cr.Range(0, 2); j > 0; j-- {
+			init = append(init, iPre(cr.Intn(4), "go", randScript(cr, 4)))
+		}
+		// any order
+		for i := len(init) - 1; i > 0; i-- {
+			j := cr.Intn(i + 1)
+			init[i], init[j] = init[j], init[i]
+		}
+		ops := []Op{}
+		for _, m := range registered {
+			ops = append(ops, hReq(m), hGetG(m))
+		}
+		for j := cr.Range(2, 6); j > 0; j-- {
+			m := cr.Intn(4)
+			switch cr.Pick(5, 2, 2, 2, 2, 1) {
+			case 0:
+				ops = append(ops, hReq(m))
+			case 1:
+				ops = append(ops, hGetL(registered[cr.Intn(len(registered))]))
+			case 2:
+				ops = append(ops, hPre(m, "lua", randScript(cr, 4)))
+			case 3:
+				ops = append(ops, hReg(registered[cr.Intn(len(registered))], cr.Intn(4)))
+			case 4:
+				ops = append(ops, hReq(libs[cr.Intn(3)]))
+			case 5:
+				ops = append(ops, hClear(registered[cr.Intn(len(registered))]))
+			}
+		}
+		runCase(w, env, in{Init: init, Ops: ops})
+	}
+}
